@@ -369,6 +369,26 @@ func parkedCase(k *engine.Case) {
 		return true
 	}
 
+	if r.Intn(12) == 0 {
+		// prelude: a backlog of more than a thousand items is built up and drained completely
+		// (an implementation may resize or swap its storage at such a point), then the usual program
+		nb := 1030 + r.Intn(300)
+		for i := 0; i < nb; i++ {
+			doAdd(1000000+i, false, false)
+		}
+		drained := 0
+		for i := 0; i < nb; i++ {
+			v, ok := qu.Pop(true)
+			if !ok || v != 1000000+i {
+				k.Fail("lost-item", "prelude: %d items added, item #%d popped as (%v, %v)", nb, i, v, ok)
+				return
+			}
+			delete(accepted, v)
+			drained++
+		}
+		k.Logf("prelude: %d items added and drained", drained)
+		k.Count("big_backlog_preludes", 1)
+	}
 	nsteps := 3 + r.Intn(10)
 	// bias: start by parking consumers
 	prePark := 1 + r.Intn(4)
